@@ -7,11 +7,9 @@ package outbound
 // One op per line; grammar in lean/DaeVerif/C14/Main.lean.
 
 import (
-	"encoding/hex"
 	"fmt"
 	"os"
 	"path/filepath"
-	"sort"
 	"strings"
 	"testing"
 	"time"
@@ -19,418 +17,8 @@ import (
 	"github.com/daeuniverse/dae/common/consts"
 	"github.com/daeuniverse/dae/component/outbound/dialer"
 	"github.com/daeuniverse/dae/config"
-	"github.com/daeuniverse/dae/pkg/config_parser"
-	"github.com/dlclark/regexp2"
 	"github.com/sirupsen/logrus"
 )
-
-// ---------------------------------------------------------------- intended definitions
-
-type c14Param struct{ Key, Val string }
-type c14Func struct {
-	Name   string
-	Not    bool
-	Params []c14Param
-}
-type c14Def struct {
-	Lines  [][]c14Func
-	Annos  [][]c14Param // same length as Lines unless lenBug
-	Policy any          // string | c14Func | []c14Func | int (unsupported type)
-}
-type c14Node struct{ Name, Tag string }
-
-func c14x(s string) string { return "x" + hex.EncodeToString([]byte(s)) }
-
-// ---------------------------------------------------------------- text rendering (for the real parser)
-
-func c14IsBare(s string) bool {
-	if s == "" {
-		return false
-	}
-	for i := 0; i < len(s); i++ {
-		c := s[i]
-		if !(c >= 'a' && c <= 'z' || c >= 'A' && c <= 'Z' || c >= '0' && c <= '9' || c == '_') {
-			return false
-		}
-	}
-	return true
-}
-
-// ok=false when the value cannot be written in dae's config syntax (quotes are not unescaped).
-func c14Lit(r *VRand, s string) (string, bool) {
-	if strings.ContainsAny(s, "\n\r") {
-		return "", false
-	}
-	if c14IsBare(s) && r.Chance(0.5) {
-		return s, true
-	}
-	if !strings.Contains(s, "'") && !strings.HasSuffix(s, "\\") {
-		return "'" + s + "'", true
-	}
-	if !strings.Contains(s, "\"") && !strings.HasSuffix(s, "\\") {
-		return "\"" + s + "\"", true
-	}
-	return "", false
-}
-
-func c14ParamsText(r *VRand, ps []c14Param) (string, bool) {
-	var parts []string
-	for _, p := range ps {
-		v, ok := c14Lit(r, p.Val)
-		if !ok {
-			return "", false
-		}
-		if p.Key == "" {
-			parts = append(parts, v)
-		} else {
-			if !c14IsBare(p.Key) {
-				return "", false
-			}
-			parts = append(parts, p.Key+": "+v)
-		}
-	}
-	return strings.Join(parts, ", "), true
-}
-
-func c14FuncText(r *VRand, f c14Func) (string, bool) {
-	if !c14IsBare(f.Name) {
-		return "", false
-	}
-	ps, ok := c14ParamsText(r, f.Params)
-	if !ok {
-		return "", false
-	}
-	s := f.Name + "(" + ps + ")"
-	if f.Not {
-		s = "!" + s
-	}
-	return s, true
-}
-
-func c14FuncsText(r *VRand, fs []c14Func) (string, bool) {
-	var parts []string
-	for _, f := range fs {
-		t, ok := c14FuncText(r, f)
-		if !ok {
-			return "", false
-		}
-		parts = append(parts, t)
-	}
-	return strings.Join(parts, " && "), len(parts) > 0
-}
-
-func c14DefText(r *VRand, d *c14Def) (string, bool) {
-	if len(d.Lines) != len(d.Annos) {
-		return "", false
-	}
-	var b strings.Builder
-	b.WriteString("global {}\nrouting { fallback: direct }\ngroup {\n  g {\n")
-	for j, l := range d.Lines {
-		t, ok := c14FuncsText(r, l)
-		if !ok {
-			return "", false
-		}
-		b.WriteString("    filter: " + t)
-		if d.Annos[j] != nil {
-			a, ok := c14ParamsText(r, d.Annos[j])
-			if !ok || len(d.Annos[j]) == 0 {
-				return "", false
-			}
-			b.WriteString(" [" + a + "]")
-		}
-		b.WriteString("\n")
-	}
-	switch p := d.Policy.(type) {
-	case string:
-		if !c14IsBare(p) {
-			return "", false
-		}
-		b.WriteString("    policy: " + p + "\n")
-	case []c14Func:
-		t, ok := c14FuncsText(r, p)
-		if !ok {
-			return "", false
-		}
-		b.WriteString("    policy: " + t + "\n")
-	default:
-		return "", false
-	}
-	b.WriteString("  }\n}\n")
-	return b.String(), true
-}
-
-// ---------------------------------------------------------------- to the real types
-
-func c14ToParams(ps []c14Param) []*config_parser.Param {
-	if ps == nil {
-		return nil
-	}
-	out := make([]*config_parser.Param, 0, len(ps))
-	for _, p := range ps {
-		out = append(out, &config_parser.Param{Key: p.Key, Val: p.Val})
-	}
-	return out
-}
-
-func c14ToFuncs(fs []c14Func) []*config_parser.Function {
-	out := make([]*config_parser.Function, 0, len(fs))
-	for _, f := range fs {
-		out = append(out, &config_parser.Function{Name: f.Name, Not: f.Not, Params: c14ToParams(f.Params)})
-	}
-	return out
-}
-
-func c14Direct(d *c14Def) *config.Group {
-	g := &config.Group{Name: "g"}
-	for _, l := range d.Lines {
-		g.Filter = append(g.Filter, c14ToFuncs(l))
-	}
-	for _, a := range d.Annos {
-		g.FilterAnnotation = append(g.FilterAnnotation, c14ToParams(a))
-	}
-	switch p := d.Policy.(type) {
-	case string:
-		g.Policy = p
-	case c14Func:
-		g.Policy = c14ToFuncs([]c14Func{p})[0]
-	case []c14Func:
-		g.Policy = c14ToFuncs(p)
-	default:
-		g.Policy = p
-	}
-	return g
-}
-
-// the real parser: text -> sections -> config.Config -> Group
-func c14Parse(text string) (g *config.Group, err error) {
-	defer func() {
-		if r := recover(); r != nil {
-			g, err = nil, fmt.Errorf("panic: %v", r)
-		}
-	}()
-	secs, err := config_parser.Parse(text)
-	if err != nil {
-		return nil, err
-	}
-	c, err := config.New(secs)
-	if err != nil {
-		return nil, err
-	}
-	if len(c.Group) != 1 {
-		return nil, fmt.Errorf("groups: %d", len(c.Group))
-	}
-	return &c.Group[0], nil
-}
-
-// ---------------------------------------------------------------- op serialisation (from the REAL structs)
-
-func c14ParamsTok(b *strings.Builder, ps []*config_parser.Param) {
-	fmt.Fprintf(b, " %d", len(ps))
-	for _, p := range ps {
-		b.WriteString(" " + c14x(p.Key) + " " + c14x(p.Val))
-	}
-}
-
-func c14FuncTok(b *strings.Builder, f *config_parser.Function) {
-	n := "0"
-	if f.Not {
-		n = "1"
-	}
-	b.WriteString(" " + c14x(f.Name) + " " + n)
-	c14ParamsTok(b, f.Params)
-}
-
-func c14PolicyTok(b *strings.Builder, p any) {
-	switch v := p.(type) {
-	case string:
-		b.WriteString(" PS " + c14x(v))
-	case *config_parser.Function:
-		b.WriteString(" PF")
-		c14FuncTok(b, v)
-	case []*config_parser.Function:
-		fmt.Fprintf(b, " PL %d", len(v))
-		for _, f := range v {
-			c14FuncTok(b, f)
-		}
-	default:
-		b.WriteString(" PO")
-	}
-}
-
-type c14Oracle struct {
-	re  map[string]*regexp2.Regexp // nil = compile error
-	dur map[string]*time.Duration  // nil = parse error
-}
-
-func c14BodyTok(b *strings.Builder, pool []c14Node, g *config.Group) *c14Oracle {
-	fmt.Fprintf(b, " P %d", len(pool))
-	for _, n := range pool {
-		b.WriteString(" " + c14x(n.Name) + " " + c14x(n.Tag))
-	}
-	fmt.Fprintf(b, " L %d", len(g.Filter))
-	pats := map[string]bool{}
-	for _, l := range g.Filter {
-		fmt.Fprintf(b, " %d", len(l))
-		for _, f := range l {
-			c14FuncTok(b, f)
-			for _, p := range f.Params {
-				if p.Key == "regex" {
-					pats[p.Val] = true
-				}
-			}
-		}
-	}
-	fmt.Fprintf(b, " A %d", len(g.FilterAnnotation))
-	durs := map[string]bool{}
-	for _, a := range g.FilterAnnotation {
-		c14ParamsTok(b, a)
-		for _, p := range a {
-			durs[p.Val] = true
-		}
-	}
-	// library oracles, evaluated independently of the filter code
-	subj := map[string]bool{}
-	for _, n := range pool {
-		subj[n.Name] = true
-		subj[n.Tag] = true
-	}
-	subjects := make([]string, 0, len(subj))
-	for s := range subj {
-		subjects = append(subjects, s)
-	}
-	sort.Strings(subjects)
-	o := &c14Oracle{re: map[string]*regexp2.Regexp{}, dur: map[string]*time.Duration{}}
-	pl := make([]string, 0, len(pats))
-	for p := range pats {
-		pl = append(pl, p)
-	}
-	sort.Strings(pl)
-	fmt.Fprintf(b, " R %d", len(pl))
-	for _, p := range pl {
-		re, err := regexp2.Compile(p, 0)
-		if err != nil {
-			o.re[p] = nil
-			b.WriteString(" " + c14x(p) + " 0 0")
-			continue
-		}
-		o.re[p] = re
-		fmt.Fprintf(b, " %s 1 %d", c14x(p), len(subjects))
-		for _, s := range subjects {
-			m, _ := re.MatchString(s)
-			if m {
-				b.WriteString(" " + c14x(s) + " 1")
-			} else {
-				b.WriteString(" " + c14x(s) + " 0")
-			}
-		}
-	}
-	dl := make([]string, 0, len(durs))
-	for d := range durs {
-		dl = append(dl, d)
-	}
-	sort.Strings(dl)
-	fmt.Fprintf(b, " D %d", len(dl))
-	for _, d := range dl {
-		v, err := time.ParseDuration(d)
-		if err != nil {
-			o.dur[d] = nil
-			b.WriteString(" " + c14x(d) + " 0 0")
-		} else {
-			vv := v
-			o.dur[d] = &vv
-			fmt.Fprintf(b, " %s 1 %d", c14x(d), int64(v))
-		}
-	}
-	return o
-}
-
-// ---------------------------------------------------------------- independent oracles on the Go side
-
-// what the definition MEANS (written from the documentation, not from filter.go).
-func c14Spec(o *c14Oracle, pool []c14Node, g *config.Group) string {
-	var out []string
-	for i, n := range pool {
-		if len(g.Filter) == 0 {
-			out = append(out, fmt.Sprintf("%d:0", i))
-			continue
-		}
-		for j, line := range g.Filter {
-			holds := true
-			for _, f := range line {
-				subject := n.Tag
-				if f.Name == "name" {
-					subject = n.Name
-				}
-				any := false
-				for _, p := range f.Params {
-					switch p.Key {
-					case "regex":
-						if re := o.re[p.Val]; re != nil {
-							if m, _ := re.MatchString(subject); m {
-								any = true
-							}
-						}
-					case "keyword":
-						any = any || strings.Contains(subject, p.Val)
-					default:
-						any = any || subject == p.Val
-					}
-				}
-				if any == f.Not {
-					holds = false
-				}
-			}
-			if holds {
-				var lat int64
-				if j < len(g.FilterAnnotation) {
-					for _, p := range g.FilterAnnotation[j] {
-						if d := o.dur[p.Val]; d != nil && *d != 0 {
-							lat = int64(*d)
-							break
-						}
-					}
-				}
-				out = append(out, fmt.Sprintf("%d:%d", i, lat))
-				break
-			}
-		}
-	}
-	if len(out) == 0 {
-		return "-"
-	}
-	return strings.Join(out, ",")
-}
-
-// is the definition valid (documented inputs/keys, regexes compile, annotations well formed)?
-func c14Valid(o *c14Oracle, g *config.Group) bool {
-	for _, line := range g.Filter {
-		for _, f := range line {
-			if f.Name != "name" && f.Name != "subtag" {
-				return false
-			}
-			for _, p := range f.Params {
-				switch {
-				case p.Key == "":
-				case p.Key == "regex":
-					if o.re[p.Val] == nil {
-						return false
-					}
-				case p.Key == "keyword" && f.Name == "name":
-				default:
-					return false
-				}
-			}
-		}
-	}
-	for _, a := range g.FilterAnnotation {
-		for _, p := range a {
-			if p.Key != "add_latency" || o.dur[p.Val] == nil {
-				return false
-			}
-		}
-	}
-	return true
-}
 
 // ---------------------------------------------------------------- the real code
 
@@ -467,46 +55,6 @@ func c14NewPool(nodes []c14Node) *c14Pool {
 
 func (p *c14Pool) Close() { _ = p.set.Close() }
 
-func c14FilterErr(err error) string {
-	m := err.Error()
-	switch {
-	case strings.HasPrefix(m, "[CODE BUG]: unmatched annotations length: "):
-		var a, b int
-		fmt.Sscanf(m, "[CODE BUG]: unmatched annotations length: %d filters and %d annotations", &a, &b)
-		return fmt.Sprintf("len %d %d", a, b)
-	case strings.HasPrefix(m, "unsupported filter input type: "):
-		return "input " + c14x(m)
-	case strings.HasPrefix(m, "unsupported filter key "):
-		return "key " + c14x(m)
-	case strings.HasPrefix(m, "bad regexp in filter "):
-		return "regex"
-	case strings.HasPrefix(m, "apply filter annotation: unknown filter annotation: "):
-		return "annokey " + c14x(m)
-	case strings.HasPrefix(m, "apply filter annotation: incorrect latency format: "):
-		return "annolat"
-	}
-	return "other " + c14x(m)
-}
-
-func c14PolicyErr(err error) string {
-	m := err.Error()
-	switch {
-	case strings.HasPrefix(m, "unsupported function-list-or-string value type: "):
-		return "type"
-	case strings.HasPrefix(m, "policy should be exact 1 function: got "):
-		return "count " + strings.TrimPrefix(m, "policy should be exact 1 function: got ")
-	case strings.HasPrefix(m, "policy param does not support not operator: "):
-		return "not " + c14x(m)
-	case strings.HasPrefix(m, "invalid \"") && strings.HasSuffix(m, "\" param format"):
-		return "format " + c14x(m)
-	case strings.HasPrefix(m, "invalid \"") && strings.Contains(m, "\" param format: "):
-		return "atoi"
-	case strings.HasPrefix(m, "unexpected policy: "):
-		return "unexpected " + c14x(m)
-	}
-	return "other " + c14x(m)
-}
-
 func c14Members(p *c14Pool, ds []*dialer.Dialer, an []*dialer.Annotation) string {
 	if len(ds) != len(an) {
 		return fmt.Sprintf("annolen-mismatch:%d/%d", len(ds), len(an))
@@ -530,10 +78,64 @@ func c14Members(p *c14Pool, ds []*dialer.Dialer, an []*dialer.Annotation) string
 	return strings.Join(parts, ",")
 }
 
-var c14Tcp4 = &dialer.NetworkType{L4Proto: consts.L4ProtoStr_TCP, IpVersion: consts.IpVersionStr_4}
+// the six standard selection network types, as dialer_group.go's standardSelectionNetworkTypes
+var c14NetTypes = []*dialer.NetworkType{
+	{L4Proto: consts.L4ProtoStr_TCP, IpVersion: consts.IpVersionStr_4},
+	{L4Proto: consts.L4ProtoStr_TCP, IpVersion: consts.IpVersionStr_6},
+	{L4Proto: consts.L4ProtoStr_UDP, IpVersion: consts.IpVersionStr_4, IsDns: true, UdpHealthDomain: dialer.UdpHealthDomainDns},
+	{L4Proto: consts.L4ProtoStr_UDP, IpVersion: consts.IpVersionStr_6, IsDns: true, UdpHealthDomain: dialer.UdpHealthDomainDns},
+	{L4Proto: consts.L4ProtoStr_UDP, IpVersion: consts.IpVersionStr_4, UdpHealthDomain: dialer.UdpHealthDomainData},
+	{L4Proto: consts.L4ProtoStr_UDP, IpVersion: consts.IpVersionStr_6, UdpHealthDomain: dialer.UdpHealthDomainData},
+	{L4Proto: consts.L4ProtoStr_TCP, IpVersion: consts.IpVersionStr_4, IsDns: true},
+}
 
-// mirrors the loop body of control.NewControlPlane (control_plane.go, "Filter out groups"):
-// policy, then FilterAndAnnotate, then NewDialerGroup(dialers, annos, *policy).
+// c14FixedSel: what fixed(i) designates, asked under every network type, strict and not, with and
+// without an excluded dialer (the first member): "the i-th member" must not depend on any of these.
+func c14FixedSel(grp *DialerGroup, index func(*dialer.Dialer) (int, bool)) string {
+	one := func(d *dialer.Dialer, err error) string {
+		switch {
+		case err == nil:
+			if idx, ok := index(d); ok {
+				return fmt.Sprint(idx)
+			}
+			return "?"
+		case strings.Contains(err.Error(), "out of range"):
+			return "range"
+		case strings.Contains(err.Error(), "no dialer in this group"):
+			return "empty"
+		}
+		return "err:" + c14x(err.Error())
+	}
+	var excluded *dialer.Dialer
+	if len(grp.Dialers) > 0 {
+		excluded = grp.Dialers[0]
+	}
+	seen := map[string]bool{}
+	var order []string
+	for _, nt := range c14NetTypes {
+		for _, strict := range []bool{false, true} {
+			d, _, err := grp.Select(nt, strict)
+			a := one(d, err)
+			d, _, err = grp.SelectWithExclusion(nt, strict, excluded)
+			b := one(d, err)
+			for _, x := range []string{a, b} {
+				if !seen[x] {
+					seen[x] = true
+					order = append(order, x)
+				}
+			}
+		}
+	}
+	if len(order) == 1 {
+		return order[0]
+	}
+	return "DISAGREE(" + strings.Join(order, "|") + ")"
+}
+
+// c14Group REPLICATES the loop body of control.NewControlPlane ("Filter out groups") with the real
+// functions; the real loop itself is executed by the package-control harness
+// (harness/overlay/control/c14_test.go).  Kept for volume: policy parsing and fixed(i) on
+// hand-made pools with arbitrary bytes.
 func c14Group(p *c14Pool, g *config.Group) string {
 	policy, err := NewDialerSelectionPolicyFromGroupParam(g)
 	if err != nil {
@@ -549,412 +151,9 @@ func c14Group(p *c14Pool, g *config.Group) string {
 	sel := "-"
 	if policy.Policy == consts.DialerSelectionPolicy_Fixed {
 		pol = fmt.Sprintf("fixed:%d", policy.FixedIndex)
-		d, _, err := grp.Select(c14Tcp4, false)
-		switch {
-		case err == nil:
-			if idx, ok := p.index[d]; ok {
-				sel = fmt.Sprint(idx)
-			} else {
-				sel = "?"
-			}
-		case strings.Contains(err.Error(), "out of range"):
-			sel = "range"
-		case strings.Contains(err.Error(), "no dialer in this group"):
-			sel = "empty"
-		default:
-			sel = "err:" + c14x(err.Error())
-		}
+		sel = c14FixedSel(grp, func(d *dialer.Dialer) (int, bool) { i, ok := p.index[d]; return i, ok })
 	}
 	return fmt.Sprintf("ok pol=%s members=%s sel=%s", pol, c14Members(p, grp.Dialers, grp.dialersAnnotations), sel)
-}
-
-// ---------------------------------------------------------------- generators
-
-var c14Tokens = []string{"hk", "HK", "sg", "us", "jp", "tw", "disney", "netflix", "01", "1", "2", "-", "_", " ", "|", "(", ")",
-	"[", ".", "*", "+", "香港", "🇭🇰", "é", "\xff", "'", "\"", "premium", "x", "IPLC", "\\", "$", "^"}
-var c14Tags = []string{"", "my_sub", "my_sub", "sub2", "my_", "机场", "a b", "MY_SUB", "sub"}
-
-func c14Pick(r *VRand, l []string) string { return l[r.Intn(len(l))] }
-
-func c14GenName(r *VRand, existing []c14Node) string {
-	switch {
-	case r.Chance(0.06):
-		return ""
-	case len(existing) > 0 && r.Chance(0.15):
-		return existing[r.Intn(len(existing))].Name // duplicate
-	case len(existing) > 0 && r.Chance(0.10):
-		return existing[r.Intn(len(existing))].Name + c14Pick(r, c14Tokens) // extension of another name
-	}
-	n := 1 + r.Intn(4)
-	s := ""
-	for i := 0; i < n; i++ {
-		if i > 0 && r.Chance(0.5) {
-			s += c14Pick(r, []string{"-", " ", "_", ""})
-		}
-		s += c14Pick(r, c14Tokens)
-	}
-	return s
-}
-
-func c14GenPool(r *VRand, stats *VStats) []c14Node {
-	var n int
-	switch k := r.Intn(20); {
-	case k == 0:
-		n = 0
-		stats.Inc("pool.empty")
-	case k == 1:
-		n = 1
-	case k < 16:
-		n = 2 + r.Intn(5)
-	default:
-		n = 7 + r.Intn(8)
-	}
-	nodes := make([]c14Node, 0, n)
-	dup := false
-	for i := 0; i < n; i++ {
-		nm := c14GenName(r, nodes)
-		for _, e := range nodes {
-			if e.Name == nm {
-				dup = true
-			}
-		}
-		if nm == "" {
-			stats.Inc("node.empty_name")
-		}
-		nodes = append(nodes, c14Node{Name: nm, Tag: c14Pick(r, c14Tags)})
-	}
-	if dup {
-		stats.Inc("pool.with_duplicate_names")
-	}
-	stats.Add("pool.nodes", n)
-	return nodes
-}
-
-func c14Sub(r *VRand, s string) string {
-	if s == "" {
-		return ""
-	}
-	a := r.Intn(len(s))
-	b := a + 1 + r.Intn(len(s)-a)
-	return s[a:b]
-}
-
-func c14QuoteMeta(s string) string {
-	var b strings.Builder
-	for _, c := range s {
-		if strings.ContainsRune(`\.+*?()|[]{}^$#- `, c) {
-			b.WriteByte('\\')
-		}
-		b.WriteRune(c)
-	}
-	return b.String()
-}
-
-var c14BadRegex = []string{"(", "[a-", "*a", "(?<n", "a{2,1}", "(?P<x>a)(?P<x>b", "\\"}
-
-func c14GenRegex(r *VRand, subject func() string, stats *VStats) string {
-	tok := func() string {
-		s := c14Sub(r, subject())
-		if len(s) > 6 {
-			s = s[:6]
-		}
-		return c14QuoteMeta(strings.ToValidUTF8(s, ""))
-	}
-	switch r.Intn(14) {
-	case 0:
-		return "^" + tok()
-	case 1:
-		return tok() + "$"
-	case 2:
-		return tok() + "|" + tok()
-	case 3:
-		return ".*"
-	case 4:
-		return "^$"
-	case 5:
-		return `\d+`
-	case 6:
-		return "(?i)" + tok()
-	case 7:
-		return "^(?!.*" + tok() + ").*$" // negative look-ahead: regexp2 only
-	case 8:
-		return `^[a-zA-Z]+[-_ ]?\d*$`
-	case 9:
-		return tok() + ".*" + tok()
-	case 10:
-		return "^" + c14QuoteMeta(strings.ToValidUTF8(subject(), "")) + "$"
-	case 11:
-		return "HK|TW|SG"
-	case 12:
-		return "^my_"
-	default:
-		return tok()
-	}
-}
-
-// one param; inv selects an invalid form (0 = valid)
-func c14GenParam(r *VRand, fname string, subject func() string, inv int, stats *VStats) c14Param {
-	switch inv {
-	case 1: // unknown key
-		stats.Inc("invalid.key")
-		return c14Param{Key: c14Pick(r, []string{"badkey", "Regex", "keywords", "exact", "link"}), Val: subject()}
-	case 2: // key valid for the other input only
-		stats.Inc("invalid.key_keyword_on_subtag")
-		return c14Param{Key: "keyword", Val: c14Sub(r, subject())}
-	case 3:
-		stats.Inc("invalid.regex")
-		return c14Param{Key: "regex", Val: c14Pick(r, c14BadRegex)}
-	}
-	k := r.Intn(10)
-	if fname != "name" && k >= 3 && k < 6 {
-		k = 0 // no keyword: on subtag: exact instead
-	}
-	switch {
-	case k < 3:
-		stats.Inc("param.exact")
-		switch r.Intn(6) {
-		case 0:
-			return c14Param{Val: c14Sub(r, subject())}
-		case 1:
-			return c14Param{Val: subject() + c14Pick(r, c14Tokens)}
-		case 2:
-			return c14Param{Val: c14Pick(r, c14Tokens)}
-		default:
-			return c14Param{Val: subject()}
-		}
-	case k < 6 && fname == "name":
-		stats.Inc("param.keyword")
-		switch r.Intn(8) {
-		case 0:
-			return c14Param{Key: "keyword", Val: ""}
-		case 1:
-			return c14Param{Key: "keyword", Val: c14Pick(r, c14Tokens)}
-		case 2:
-			return c14Param{Key: "keyword", Val: subject() + "x"}
-		default:
-			return c14Param{Key: "keyword", Val: c14Sub(r, subject())}
-		}
-	default:
-		stats.Inc("param.regex")
-		return c14Param{Key: "regex", Val: c14GenRegex(r, subject, stats)}
-	}
-}
-
-var c14GoodDur = []string{"5ms", "0s", "0", "-3ms", "1h2m", "1.5s", "100us", "+7ms", "0ms", "2562047h", "1ns", ".5s", "1µs"}
-var c14BadDur = []string{"5", "ms", "5 ms", "abc", "", "1d", "9223372036854775808ns", "1.s.", "--1s", "1e3ms"}
-
-func c14GenAnno(r *VRand, inv int, stats *VStats) []c14Param {
-	if inv == 0 && r.Chance(0.45) {
-		stats.Inc("anno.absent")
-		return nil
-	}
-	n := 1
-	if r.Chance(0.35) {
-		n = 2 + r.Intn(2)
-		stats.Inc("anno.multi")
-	}
-	a := make([]c14Param, 0, n)
-	for i := 0; i < n; i++ {
-		a = append(a, c14Param{Key: "add_latency", Val: c14Pick(r, c14GoodDur)})
-	}
-	switch inv {
-	case 1:
-		stats.Inc("invalid.anno_key")
-		a[r.Intn(n)].Key = c14Pick(r, []string{"nonsense", "add_latenc", "latency", "Add_latency"})
-	case 2:
-		stats.Inc("invalid.anno_latency")
-		a[r.Intn(n)].Val = c14Pick(r, c14BadDur)
-	default:
-		stats.Inc("anno.valid")
-	}
-	return a
-}
-
-func c14GenPolicy(r *VRand, nMembersHint int, stats *VStats) any {
-	fx := func(v string) []c14Func { return []c14Func{{Name: "fixed", Params: []c14Param{{Val: v}}}} }
-	switch k := r.Intn(20); {
-	case k < 6:
-		stats.Inc("policy.simple")
-		return c14Pick(r, []string{"random", "min", "min_avg10", "min_moving_avg"})
-	case k < 12:
-		stats.Inc("policy.fixed_near_range")
-		return fx(fmt.Sprint(c14Pick(r, []string{"-1", "0", "1", "2"})))
-	case k < 14:
-		stats.Inc("policy.fixed_at_len")
-		return fx(fmt.Sprint(nMembersHint - 1 + r.Intn(3)))
-	case k == 14:
-		stats.Inc("policy.fixed_odd_number")
-		return fx(c14Pick(r, []string{"+1", "-0", "01", "1_0", " 1", "", "9223372036854775807", "9223372036854775808",
-			"-9223372036854775808", "-9223372036854775809", "99999999999999999999", "0x1", "1.0", "a", "١"}))
-	case k == 15:
-		stats.Inc("policy.fixed_bad_shape")
-		switch r.Intn(5) {
-		case 0:
-			return []c14Func{{Name: "fixed", Not: true, Params: []c14Param{{Val: "0"}}}}
-		case 1:
-			return []c14Func{{Name: "fixed", Params: []c14Param{{Key: "k", Val: "0"}}}}
-		case 2:
-			return []c14Func{{Name: "fixed", Params: []c14Param{{Val: "0"}, {Val: "1"}}}}
-		case 3:
-			return []c14Func{{Name: "fixed"}}
-		default:
-			return "fixed"
-		}
-	case k == 16:
-		stats.Inc("policy.simple_with_extras")
-		return []c14Func{{Name: c14Pick(r, []string{"random", "min", "min_avg10", "min_moving_avg"}), Not: r.Bool(),
-			Params: []c14Param{{Key: c14Pick(r, []string{"", "k"}), Val: "7"}}}}
-	case k == 17:
-		stats.Inc("policy.unknown_name")
-		return c14Pick(r, []string{"foo", "Min", "min_avg", "minimum", "fix", "randomm", "min_last"})
-	case k == 18:
-		stats.Inc("policy.wrong_count")
-		if r.Bool() {
-			return []c14Func{{Name: "min"}, {Name: "random"}}
-		}
-		return []c14Func{}
-	default:
-		stats.Inc("policy.odd_type")
-		switch r.Intn(3) {
-		case 0:
-			return c14Func{Name: c14Pick(r, []string{"min", "fixed", "zzz"}), Params: []c14Param{{Val: "0"}}}
-		case 1:
-			return 7
-		default:
-			return []string{"min"}
-		}
-	}
-}
-
-func c14GenDef(r *VRand, pool []c14Node, stats *VStats) *c14Def {
-	d := &c14Def{}
-	var nl int
-	switch k := r.Intn(12); {
-	case k == 0:
-		nl = 0
-		stats.Inc("def.no_filter")
-	case k < 6:
-		nl = 1
-	case k < 10:
-		nl = 2 + r.Intn(2)
-	default:
-		nl = 4 + r.Intn(3)
-	}
-	// at most one invalid item per definition, at a random place (so that evaluation often does
-	// not reach it): 0 none, 1 input, 2 key, 3 regex, 4 anno key, 5 anno latency
-	inv := 0
-	if nl > 0 && r.Chance(0.30) {
-		inv = 1 + r.Intn(5)
-	}
-	invLine := r.Intn(nl + 1)
-	if nl > 0 {
-		invLine = r.Intn(nl)
-	}
-	anyName := func() string {
-		if len(pool) == 0 || r.Chance(0.1) {
-			return c14Pick(r, c14Tokens)
-		}
-		return pool[r.Intn(len(pool))].Name
-	}
-	anyTag := func() string {
-		if len(pool) == 0 || r.Chance(0.1) {
-			return c14Pick(r, c14Tags)
-		}
-		return pool[r.Intn(len(pool))].Tag
-	}
-	for j := 0; j < nl; j++ {
-		nf := 1
-		if r.Chance(0.45) {
-			nf = 2 + r.Intn(2)
-		}
-		invFunc := r.Intn(nf)
-		line := make([]c14Func, 0, nf)
-		for k := 0; k < nf; k++ {
-			f := c14Func{Name: "name", Not: r.Chance(0.25)}
-			subject := anyName
-			if r.Chance(0.3) {
-				f.Name = "subtag"
-				subject = anyTag
-			}
-			if f.Not {
-				stats.Inc("func.negated")
-			}
-			here := inv != 0 && j == invLine && k == invFunc
-			if here && inv == 1 {
-				stats.Inc("invalid.input")
-				f.Name = c14Pick(r, []string{"bogus", "link", "Name", "names", "tag", "sub_tag"})
-			}
-			np := 1
-			if r.Chance(0.4) {
-				np = 2 + r.Intn(2)
-			}
-			if r.Chance(0.02) {
-				np = 0
-				stats.Inc("func.no_params")
-			}
-			invParam := r.Intn(np + 1)
-			if np > 0 {
-				invParam = r.Intn(np)
-			}
-			for q := 0; q < np; q++ {
-				pi := 0
-				if here && q == invParam {
-					switch inv {
-					case 2:
-						pi = 1
-						if f.Name == "subtag" && r.Bool() {
-							pi = 2
-						}
-					case 3:
-						pi = 3
-					}
-				}
-				f.Params = append(f.Params, c14GenParam(r, f.Name, subject, pi, stats))
-			}
-			stats.Inc("func." + map[bool]string{true: "name", false: "other"}[f.Name == "name"])
-			line = append(line, f)
-		}
-		if nf > 1 {
-			stats.Inc("line.conjunction")
-		}
-		d.Lines = append(d.Lines, line)
-		ai := 0
-		if j == invLine && inv >= 4 {
-			ai = inv - 3
-		}
-		d.Annos = append(d.Annos, c14GenAnno(r, ai, stats))
-	}
-	if inv != 0 {
-		stats.Inc("def.with_one_invalid_item")
-	} else {
-		stats.Inc("def.valid")
-	}
-	stats.Add("def.lines", nl)
-	d.Policy = c14GenPolicy(r, len(pool), stats)
-	return d
-}
-
-// the reproduced instances of the lazy-validation defect (DESIGN §7 item 8) and neighbours
-func c14Directed() ([]c14Node, []*c14Def) {
-	pool := []c14Node{{"hk-1", "my_sub"}, {"sg-2", "my_sub"}, {"us-3", "sub2"}}
-	kw := func(v string) c14Func { return c14Func{Name: "name", Params: []c14Param{{Key: "keyword", Val: v}}} }
-	defs := []*c14Def{
-		{Lines: [][]c14Func{{kw("zzz"), {Name: "bogus", Params: []c14Param{{Val: "x"}}}}}, Annos: [][]c14Param{nil}, Policy: "min"},
-		{Lines: [][]c14Func{{kw("zzz")}}, Annos: [][]c14Param{{{Key: "nonsense", Val: "1"}}}, Policy: "min"},
-		{Lines: [][]c14Func{{kw("zzz"), {Name: "name", Params: []c14Param{{Key: "regex", Val: "("}}}}}, Annos: [][]c14Param{nil}, Policy: "min"},
-		{Lines: [][]c14Func{{kw("zzz")}}, Annos: [][]c14Param{{{Key: "add_latency", Val: "5"}}}, Policy: "min"},
-		{Lines: [][]c14Func{{kw("hk"), kw("sg")}, {{Name: "subtag", Params: []c14Param{{Key: "keyword", Val: "my"}}}}}, Annos: [][]c14Param{nil, nil}, Policy: "min"},
-		{Lines: [][]c14Func{{kw("")}, {{Name: "bogus"}}}, Annos: [][]c14Param{nil, nil}, Policy: "min"},                   // catch-all line first
-		{Lines: [][]c14Func{{kw("hk"), {Name: "name", Params: []c14Param{{Val: "hk-1"}, {Key: "badkey", Val: "q"}}}}}, Annos: [][]c14Param{nil}, Policy: "min"}, // OR leaves before the bad key
-		{Lines: [][]c14Func{{{Name: "bogus", Params: []c14Param{{Val: "x"}}}}}, Annos: [][]c14Param{nil}, Policy: "min"},
-		{Lines: [][]c14Func{{{Name: "name", Params: []c14Param{{Key: "keyword", Val: "hk"}, {Key: "badkey", Val: "q"}}}}}, Annos: [][]c14Param{nil}, Policy: "min"},
-		{Lines: [][]c14Func{{kw("hk")}}, Annos: [][]c14Param{{{Key: "add_latency", Val: "5ms"}}}, Policy: "min"},
-		{Lines: [][]c14Func{{kw("hk")}}, Annos: [][]c14Param{{{Key: "add_latency", Val: "0s"}, {Key: "add_latency", Val: "7ms"}, {Key: "add_latency", Val: "9ms"}}}, Policy: "min"},
-		{Lines: [][]c14Func{{{Name: "name", Not: true, Params: []c14Param{{Key: "regex", Val: "HK|TW|SG"}, {Key: "keyword", Val: "sg"}}}, kw("-")}}, Annos: [][]c14Param{nil}, Policy: []c14Func{{Name: "fixed", Params: []c14Param{{Val: "1"}}}}},
-		{Lines: [][]c14Func{{{Name: "subtag", Params: []c14Param{{Val: "my_sub"}, {Key: "regex", Val: "^sub"}}}}}, Annos: [][]c14Param{nil}, Policy: []c14Func{{Name: "fixed", Params: []c14Param{{Val: "3"}}}}},
-		{Lines: nil, Annos: nil, Policy: []c14Func{{Name: "fixed", Params: []c14Param{{Val: "2"}}}}},
-	}
-	return pool, defs
 }
 
 // ---------------------------------------------------------------- the test
@@ -968,30 +167,18 @@ func TestVerifC14(t *testing.T) {
 		t.Fatal(err)
 	}
 	defer func() { st.Close(); side.Close(); stats.Write("c14") }()
+	nOps := 0
 
 	run := func(nodes []c14Node, pool *c14Pool, d *c14Def, forceDirect bool) {
+		nOps++
 		// 1. obtain the real config.Group: through the real parser when the text form exists
-		var g *config.Group
-		via := "direct"
-		if !forceDirect {
-			if text, ok := c14DefText(r, d); ok {
-				if pg, err := c14Parse(text); err == nil {
-					g, via = pg, "parser"
-					stats.Sample(strings.Join(strings.Fields(text[strings.Index(text, "  g {"):]), " "))
-				} else {
-					stats.Inc("text.rejected_by_parser")
-				}
-			}
-		}
-		if g == nil {
-			g = c14Direct(d)
-		}
-		stats.Inc("via." + via)
+		g, _, via, parserChanged := c14Obtain(r, d, forceDirect, stats)
 
 		// 2. op body + oracles
 		var body strings.Builder
 		o := c14BodyTok(&body, nodes, g)
 		valid := c14Valid(o, g)
+		ev := c14SpecEval(o, nodes, g)
 
 		// 3. FilterAndAnnotate alone
 		fa := VRecover(func() string {
@@ -999,14 +186,21 @@ func TestVerifC14(t *testing.T) {
 			if err != nil {
 				return "err " + c14FilterErr(err)
 			}
-			return "ok " + c14Members(pool, ds, an) + " spec=" + c14Spec(o, nodes, g)
+			return "ok " + c14Members(pool, ds, an) + " spec=" + ev.Members
 		})
 		st.Emit("fa"+body.String(), fa)
 		nmem := 0
 		if strings.HasPrefix(fa, "ok ") && !strings.HasPrefix(fa, "ok - ") {
 			nmem = strings.Count(strings.Fields(fa)[1], ",") + 1
 		}
-		fmt.Fprintf(side, "fa valid=%v lens=%d/%d nodes=%d members=%d via=%s\n", valid, len(g.Filter), len(g.FilterAnnotation), len(nodes), nmem, via)
+		pc := "-"
+		if parserChanged != "" {
+			pc = c14x(parserChanged)
+		}
+		fmt.Fprintf(side, "fa valid=%v lens=%d/%d nodes=%d members=%d via=%s parserchanged=%s\n", valid, len(g.Filter), len(g.FilterAnnotation), len(nodes), nmem, via, pc)
+		if valid && len(g.Filter) == len(g.FilterAnnotation) {
+			c14Discrim(stats, o, nodes, g, ev, nOps%3 == 0 && len(nodes) <= 64)
+		}
 		if !valid && len(g.Filter) == len(g.FilterAnnotation) {
 			// would per-node (lazy) evaluation have reached the invalid item?  Measures how many
 			// generated cases are sensitive to the defect fixed by 367c759.
@@ -1031,7 +225,7 @@ func TestVerifC14(t *testing.T) {
 			if reached {
 				stats.Inc("invalid_def.reached_by_per_node_evaluation")
 			} else {
-				stats.Inc("invalid_def.NOT_reached_by_per_node_evaluation")
+				stats.Inc("discrim.invalid_item_NOT_reached_by_per_node_evaluation")
 			}
 		}
 		switch {
@@ -1045,29 +239,13 @@ func TestVerifC14(t *testing.T) {
 			stats.Inc("result.proper_subset")
 		}
 
-		// 4. the whole group: policy -> filter -> NewDialerGroup -> Select(fixed)
+		// 4. the whole group (replica of the control-plane loop): policy -> filter -> NewDialerGroup -> Select(fixed)
 		var pb strings.Builder
 		c14PolicyTok(&pb, g.Policy)
 		gr := VRecover(func() string { return c14Group(pool, g) })
 		st.Emit("grp"+pb.String()+body.String(), gr)
-		fmt.Fprintf(side, "grp valid=%v\n", valid)
-		f := strings.Fields(gr)
-		switch f[0] {
-		case "perr":
-			stats.Inc("group.policy_error." + f[1])
-		case "ferr":
-			stats.Inc("group.filter_error")
-		case "ok":
-			stats.Inc("group.built")
-			if strings.HasPrefix(f[1], "pol=fixed") {
-				switch s := strings.TrimPrefix(f[3], "sel="); s {
-				case "range", "empty":
-					stats.Inc("group.fixed_" + s)
-				default:
-					stats.Inc("group.fixed_selected")
-				}
-			}
-		}
+		fmt.Fprintf(side, "grp valid=%v lenient=%v\n", valid, c14LenientPolicy(g.Policy))
+		c14GroupStats(stats, gr)
 	}
 
 	// directed cases first
@@ -1085,14 +263,22 @@ func TestVerifC14(t *testing.T) {
 
 	nPools := 2500
 	if VThorough() {
-		nPools = 30000
+		nPools = 24000
 	}
 	for pi := 0; pi < nPools; pi++ {
 		nodes := c14GenPool(r, stats)
 		pool := c14NewPool(nodes)
 		nd := 3 + r.Intn(6)
+		if len(nodes) > 64 {
+			nd = 2 + r.Intn(2)
+		}
 		for k := 0; k < nd; k++ {
 			d := c14GenDef(r, nodes, stats)
+			if len(nodes) > 64 && k == 0 { // at least one multi-line annotated definition per large pool
+				for len(d.Lines) < 2 {
+					d = c14GenDef(r, nodes, stats)
+				}
+			}
 			direct := r.Chance(0.15)
 			if direct && r.Chance(0.2) && len(d.Lines) > 0 { // the [CODE BUG] length guard
 				if r.Bool() {
